@@ -17,6 +17,8 @@ Field histories (state of the case):
   field <q> <0|1> [old]      open a time field (quantum, noStandardView) through the hooked Field API
   efield <q> <0|1>           the same through PQL on an in-process server
   set <r> <c> <t|->          SetBit / Set(c, f=r, t) -> changed
+  import <0|1> <bits>        Field.Import / API.Import of bits `r:c:t;r:c:-;…` (1 = clear) -> ok | err
+  mkview <name>              view created for a peer's CreateViewMessage (Server.receiveMessage) -> ok
   scan <r> <c>               names of the views holding (r,c)     #spec: from the log of live sets
   views                      names of all views
   row <r> <from> <to>        (efield) Row(f=r, from=, to=) -> columns   #spec: columns set with a timestamp in [from,to)
@@ -84,6 +86,12 @@ def showOptName : Option VName → String
   | none => "-"
   | some n => showName n
 
+/-- `r:c:t` with t = Y-M-D-H or `-`. -/
+def parseBit (b : String) : Option (Nat × Nat × Option Civil) :=
+  match b.splitOn ":" with
+  | [r, c, t] => do pure (← r.toNat?, ← c.toNat?, ← parseTimeOpt t)
+  | _ => none
+
 def bad (s : DState) : DState × Ans := (s, ans "bad-op")
 
 def stepPure (ws : List String) : Option Ans :=
@@ -150,13 +158,26 @@ def stepField (s : DState) (ws : List String) : Option (DState × Ans) :=
     let r ← r.toNat?; let c ← c.toNat?; let t ← parseTimeOpt t
     let res := s.field.setBit r c t
     -- a set without timestamp on a field without standard view writes nothing
-    let log := if s.field.noStd && t.isNone then s.log else s.log ++ [⟨r, c, t⟩]
+    let log := if s.field.noStd && t.isNone then s.log else s.log ++ [⟨r, c, t, !s.field.noStd⟩]
     pure ({ s with field := res.1, log := log }, ans (showBool res.2))
+  | ["import", cl, bits] => do
+    if s.mode = 0 then none
+    if cl ≠ "0" ∧ cl ≠ "1" then none
+    let bs ← (if bits = "-" then some [] else (bits.splitOn ";").mapM parseBit)
+    match s.field.importBits bs (cl = "1") with
+    | none => pure (s, ans "err")
+    | some f =>
+      let log := if cl = "1" then Spec.importClear s.log bs else Spec.importSet s.field.noStd s.log bs
+      pure ({ s with field := f, log := log }, ans "ok")
+  | ["mkview", n] => do
+    if s.mode = 0 then none
+    let n ← parseName n
+    pure ({ s with field := s.field.mkView n }, ans "ok")
   | ["scan", r, c] => do
     if s.mode = 0 then none
     let r ← r.toNat?; let c ← c.toNat?
     let m := showNames (sortNames (s.field.viewsWithBit r c))
-    let sp := showNames (sortNames (Spec.viewsWithBit s.field.q s.field.noStd s.log r c))
+    let sp := showNames (sortNames (Spec.viewsWithBit s.field.q s.log r c))
     pure (s, ans2 m sp "scan-views")
   | ["views"] => do
     if s.mode = 0 then none
@@ -164,8 +185,7 @@ def stepField (s : DState) (ws : List String) : Option (DState × Ans) :=
   | ["row", r, "-", "-"] => do
     if s.mode ≠ 2 then none
     let r ← r.toNat?
-    if s.field.noStd then pure (s, ans (showNats (s.field.rowStd r)))
-    else pure (s, ans2 (showNats (s.field.rowStd r)) (showNats (Spec.rowStd s.log r)) "row-std")
+    pure (s, ans2 (showNats (s.field.rowStd r)) (showNats (Spec.rowStd s.log r)) "row-std")
   | ["row", r, a, b] => do
     if s.mode ≠ 2 then none
     let r ← r.toNat?; let a ← parseTime a; let b ← parseTime b
